@@ -390,6 +390,23 @@ fn extra_cases() -> &'static Vec<ExtraCase> {
                 v.push(ExtraCase { c, texs, l: layouts[(i * 7) % layouts.len()].clone() });
             }
         }
+        // texture names that collide under common 32-bit hashes / FxHash, or stand in a suffix relation
+        let mut pairs: Vec<(String, String)> = vcore::collide::pairs().iter().map(|(_, a, b)| (a.clone(), b.clone())).collect();
+        pairs.extend(vcore::sjis::suffix_pairs());
+        for (i, (a, b)) in pairs.iter().enumerate() {
+            if a.is_empty() || b.is_empty() {
+                continue;
+            }
+            for c in [Container::Ctpk, Container::Bch, Container::Cgfx] {
+                let texs = vec![make_3ds(i, Fmt::ALL[i % 9], SIZES[0], a, false), make_3ds(i + 1, Fmt::ALL[(i + 3) % 9], SIZES[0], b, false)];
+                let layouts = match c {
+                    Container::Ctpk => rt::ctpk_layouts(),
+                    Container::Bch => rt::bch_layouts(false),
+                    _ => rt::cgfx_layouts(true),
+                };
+                v.push(ExtraCase { c, texs, l: layouts[(i * 5) % layouts.len()].clone() });
+            }
+        }
         // same bytes, different formats (formats of equal bits per pixel), same and different sizes
         let groups: [&[Fmt]; 2] = [&[Fmt::L8, Fmt::A8], &[Fmt::Rgba5551, Fmt::Rgb565, Fmt::Rgba4, Fmt::La8]];
         for g in groups {
